@@ -150,11 +150,12 @@ class EpHost:
 
     RESP_WAIT = 4     # cycles after the ready strobe within which a DUT must have started its response
 
-    def __init__(self, events, *, d, phy=(1,), pid_wait=1, side=None, tail=16, tok_len=3, address=0):
+    def __init__(self, events, *, d, phy=(1,), pid_wait=1, side=None, tail=16, tok_len=3, more=None):
         assert d >= 1
         self.d = d
         self.events = events
         self.side = side
+        self.more = more           # optional callback(host) -> next event | None, used after `events` (drain phases)
         self.tail = tail
         self.tok_len = tok_len
         self.tx = TxModel(phy, pid_wait)
@@ -238,7 +239,14 @@ class EpHost:
     # ---- the host script -----------------------------------------------------------------------------------
     def _script(self):
         yield from self.wait(2)
+        i = -1
         for i, ev in enumerate(self.events):
+            yield from self._do(i, ev)
+        while self.more is not None:
+            ev = self.more(self)
+            if ev is None:
+                break
+            i += 1
             yield from self._do(i, ev)
         self.done_at = self.t
 
